@@ -188,7 +188,7 @@ def program_case(rng, tier, idx):
     init, body = [], []
     inits = {}
     shape = wchoice(r, [("plain", 8), ("ref", 3), ("cond-keep", 3), ("cond-else", 2), ("init-func", 3), ("pre-use", 3), ("old-use", 3), ("two-draws", 4),
-                        ("const", 4), ("mix", 3), ("divergent", 2), ("guarded", 1), ("simult", 1), ("const-init", 1)])
+                        ("const", 4), ("mix", 3), ("divergent", 2), ("guarded", 1), ("simult", 1), ("const-init", 1), ("cond-ref", 2)])
     feats.add("shape-" + shape)
     fam = wchoice(r, PROGRAM_FAMILIES)
     want_exp = shape in ("mix", "divergent") or r.random() < 0.4
@@ -264,7 +264,15 @@ def program_case(rng, tier, idx):
                 feats.add("init-and-loop")
         body.append(draw_line)
         arg = "x"
-        if shape == "ref" or (shape not in ("simult",) and r.random() < 0.15):
+        if shape == "cond-ref":
+            # the argument is a copy of the draw made only in some iterations (otherwise it keeps its previous value): it is NOT the
+            # draw of this iteration; either refused or analysed with the mixture semantics
+            init.append(f"r = {r.choice([0, 0, 1])}")
+            body.append(f"b = Bernoulli({fs(r.choice([F(1, 2), F(1, 4), F(3, 4)]))})")
+            body.append("if b == 1:\n    r = x\nend")
+            arg = "r"
+            feats.add("conditional-copy-as-argument")
+        elif shape == "ref" or (shape not in ("simult",) and r.random() < 0.15):
             body.append("r = x")
             arg = "r"
             feats.add("ref-arg")
